@@ -9,9 +9,10 @@
           runBTR r σ  agrees with  X86.step i st   on every register, flag, memory byte and the next address
 
   WHAT IS PROVED HERE (all of it universal over operand values / register contents / states; nothing is bounded):
-    (A) mirror + theorem, INSTRUCTION LEVEL (`lift_correct_rr`, `lift_correct_ri`, `lift_correct_un`): 64-bit mode,
-        {mov add sub cmp and or xor} x (register, register | immediate of the register's width) and
-        {inc dec neg not} x register, at every operand size and shape — 64-bit, 32-bit (zero-extending), 16-bit, low byte, and the high-byte
+    (A) mirror + theorem, INSTRUCTION LEVEL (`lift_correct_rr/ri/un/rm/mr/mi/lea`): 64-bit mode,
+        {mov add sub cmp and or xor} x (reg,reg | reg,imm | reg,[mem] | [mem],reg | [mem],imm), lea, and
+        {inc dec neg not} x register; memory operands = base + index*scale + disp with 64-bit registers or rip, mapped
+        and non-wrapping accesses; registers at every operand size and shape — 64-bit, 32-bit (zero-extending), 16-bit, low byte, and the high-byte
         registers ah/ch/dh/bh — every pair of registers (aliasing included), every state: `runBTR` of the mirrored
         `BlockTranslationResult` agrees with `X86.step` on all sixteen general registers, CF ZF SF OF, memory and the
         next address.  The driver compares the mirror SYNTACTICALLY with falcon's dumped IL on every generated case of
@@ -37,6 +38,7 @@ import FalconProofs.C01.Cond
 import FalconProofs.C01.RegIL
 import FalconProofs.C01.Alu
 import FalconProofs.C01.Unary
+import FalconProofs.C01.MemForms
 
 namespace Falcon.C01.Props
 open Falcon Falcon.X86 Falcon.X86Lift Falcon.Const Falcon.Sem Falcon.C01
@@ -247,6 +249,67 @@ theorem lift_correct_un {m : String} (hm : m ∈ unMn) {d : GReg} (hd : Shape d)
   obtain ⟨r, hr, σ', st', h1, h2, h3, h4⟩ := lift_un hm hd hdi addr len asz haddr σ st hok
   exact ⟨r, σ', st', hr, h1, h2, h3.gpr, h3.cf, h3.zf, h3.sf, h3.of, h4, h3.mem⟩
 
+/-! ### memory operands (64-bit mode, 64-bit address size, no segment override)
+
+  `MemOk mo`: base and index are 64-bit general registers (any of the sixteen) or rip, any scale, any displacement
+  (capstone's i64 as a u64), operand width 8/16/32/64.  `eaOf st addr len mo` is the architecture's effective address
+  (`effAddr_is_eaOf`).  Hypotheses of every theorem: the `mo.bytes` bytes at the effective address are mapped
+  (`readBytes … = some bs`) and the access does not wrap 2^64.  `Agrees r σ i st`: `runBTR r σ` ends at `addr + len`
+  in a state `σ'` with `Abs σ' st'` for the `st'` with `X86.step i st = .ok st' (addr+len) []`, and `σ'.mem = σ.mem`;
+  `AgreesM` is the same without the last clause (stores).  `Abs σ' st'` = all sixteen registers, CF ZF SF OF, the
+  whole memory, and little-endian byte order. -/
+
+/-- the mirror's address expression denotes the specification's effective address -/
+theorem effAddr_is_eaOf (i : Ins) (hm : i.mode = .amd64) (hz : i.asz = 8) (st : St) (mo : MemOp) (hmo : MemOk mo) :
+    effAddr i st none mo.base mo.index mo.scale mo.disp = eaOf st i.addr i.len mo :=
+  effAddr_eq i hm hz st hmo.base hmo.index mo.scale mo.disp
+
+/-- `mode.rs::operand_value` never fails on these operands and evaluates to that address in every state -/
+theorem il_mem_address (σ : State) (st : St) (ha : Abs σ st) (addr len : Nat) (mo : MemOp) (hmo : MemOk mo) :
+    memAddr .amd64 addr len mo.base mo.index mo.scale mo.disp = .ok (memAddrE addr len mo.base mo.index mo.scale mo.disp) ∧
+    σ.evalIn (memAddrE addr len mo.base mo.index mo.scale mo.disp) =
+      .ok (ofBV (memAddrV st addr len mo.base mo.index mo.scale mo.disp)) :=
+  ⟨memAddr_eq hmo.base hmo.index addr len mo.scale mo.disp,
+   (ev_memAddrE ha rfl hmo.base hmo.index addr len mo.scale mo.disp hmo.disp).1.evalIn⟩
+
+/-- **lift_correct_rm**: `mov/add/sub/cmp/and/or/xor  r, [mem]` -/
+theorem lift_correct_rm {m : String} (hm : m ∈ aluMn) {d : GReg} (hd : Shape d) (hdi : d.idx < 16) (mo : MemOp) (hmo : MemOk mo)
+    (hk : 8 * mo.bytes = d.bits) (addr len : Nat) (haddr : addr + len < 2 ^ 64) (σ : State) (st : St) (hok : Abs σ st)
+    (bs : List UInt8) (hmap : st.mem.readBytes (eaOf st addr len mo) mo.bytes = some bs)
+    (hwrap : eaOf st addr len mo + mo.bytes ≤ 2 ^ 64) :
+    ∃ ops, opsRM .amd64 m addr len d mo = .ok ops ∧
+      Agrees (straight addr len ops) σ (insG m addr len (.reg d) (memOpnd mo)) st :=
+  lift_rm hm hd hdi mo hmo hk addr len haddr σ st hok bs hmap hwrap
+
+/-- **lift_correct_mr**: `mov/add/sub/cmp/and/or/xor  [mem], r` (load, compute, store back; `mov` stores; `cmp` loads) -/
+theorem lift_correct_mr {m : String} (hm : m ∈ aluMn) (mo : MemOp) (hmo : MemOk mo) {s : GReg} (hs : Shape s)
+    (hb : 8 * mo.bytes = s.bits) (hsi : s.idx < 16) (addr len : Nat) (haddr : addr + len < 2 ^ 64) (σ : State) (st : St)
+    (hok : Abs σ st) (bs : List UInt8) (hmap : st.mem.readBytes (eaOf st addr len mo) mo.bytes = some bs)
+    (hwrap : eaOf st addr len mo + mo.bytes ≤ 2 ^ 64) :
+    ∃ ops, opsMR .amd64 m addr len mo s = .ok ops ∧
+      AgreesM (straight addr len ops) σ (insG m addr len (memOpnd mo) (.reg s)) st :=
+  lift_mr hm mo hmo hs hb hsi addr len haddr σ st hok bs hmap hwrap
+
+/-- **lift_correct_mi**: `mov/add/sub/cmp/and/or/xor  [mem], imm` -/
+theorem lift_correct_mi {m : String} (hm : m ∈ aluMn) (mo : MemOp) (hmo : MemOk mo) (v : Nat)
+    (addr len : Nat) (haddr : addr + len < 2 ^ 64) (σ : State) (st : St) (hok : Abs σ st) (bs : List UInt8)
+    (hmap : st.mem.readBytes (eaOf st addr len mo) mo.bytes = some bs) (hwrap : eaOf st addr len mo + mo.bytes ≤ 2 ^ 64) :
+    ∃ ops, opsMI .amd64 m addr len mo v mo.bytes = .ok ops ∧
+      AgreesM (straight addr len ops) σ (insG m addr len (memOpnd mo) (.imm v mo.bytes)) st :=
+  lift_mi hm mo hmo v addr len haddr σ st hok bs hmap hwrap
+
+/-- **lift_correct_lea**: `lea r64/r32/r16, [mem]` — the effective address, truncated; no access, no flags -/
+theorem lift_correct_lea {d : GReg} (hd : Shape d) (hd16 : 16 ≤ d.bits) (hdi : d.idx < 16) (mo : MemOp) (hmo : MemOk mo)
+    (addr len : Nat) (haddr : addr + len < 2 ^ 64) (σ : State) (st : St) (hok : Abs σ st) :
+    ∃ ops, opsLea .amd64 addr len d mo = .ok ops ∧
+      Agrees (straight addr len ops) σ (insG "lea" addr len (.reg d) (memOpnd mo)) st :=
+  lift_lea hd hd16 hdi mo hmo addr len haddr σ st hok
+
+/-- what a store leaves in memory: exactly the specification's little-endian bytes at the effective address, and the
+    instruction `mov [mem], r` as an instance (the final IL memory is the specification's) -/
+theorem store_bytes {σ : State} {st : St} (ha : Abs σ st) (m' : ByteMem) : Abs { σ with mem := m' } { st with mem := m' } :=
+  abs_store ha m'
+
 /-! ### non-vacuity -/
 
 /-- a state that is `StateOK`: all sixteen registers and the four flags defined, holding the all-zero machine state -/
@@ -254,7 +317,7 @@ def σ₀ : State :=
   { scalars := (gprNames.map fun n => (n, ofBV 0#64)) ++ ["CF", "ZF", "SF", "OF"].map fun n => (n, ofBV (BitVec.ofBool false)) }
 
 example : StateOK σ₀ :=
-  ⟨default, { gpr := by decide, cf := by decide, zf := by decide, sf := by decide, of := by decide, mem := rfl }⟩
+  ⟨default, { gpr := by decide, cf := by decide, zf := by decide, sf := by decide, of := by decide, mem := rfl, endian := rfl }⟩
 
 /-- the class is inhabited: `add bh, cl` (high byte destination) meets the hypotheses of `lift_correct_rr` -/
 example : ("add" ∈ aluMn) ∧ Shape ⟨3, 8, 8⟩ ∧ Shape ⟨1, 8, 0⟩ := ⟨by decide, .h8 3, .r8 1⟩
